@@ -3,7 +3,11 @@ import BearVerif.Core.Fwd
 /-! Line-protocol driver for C07.
 
     `(c07 run (BUILTIN…) (HEAPENTRY…) (EVENT…))` → one output per event:
-       `silent` | `(crash KIND ARG)` | `(called IMPL SPEC (CACHEENTRY…))`
+       `silent` | `(crash KIND ARG)` | `(called IMPL SPEC (CACHEENTRY…) (FRESHENTRY…))`
+       CACHEENTRY = `((NAME…) val|fake)`: the resolved-proxy cache after the call. FRESHENTRY, same form: for every
+       SUBSCRIPTED proxy of the stored hint, what a proxy of that name made NOW resolves to — the violation raiser
+       re-evaluates a string that is still inside the hint (`Optional['K[int]']`, a postponed string literal), `K[int]`
+       then makes a new, unmemoized subscripted proxy, which is resolved afresh and cached beside the first one.
     `(c07 show E)` → `((TOK…) roundtrip|NO-ROUNDTRIP)` — printer (and parser round trip) of the source language.
 
     BUILTIN = `(NAME ID)`; HEAPENTRY = `(ID (NAME H)…)`;
@@ -98,16 +102,34 @@ def cacheStr (c : List (Proxy × Ref)) : Sexp :=
   .list (c.map fun e =>
     .list [pathStr e.1.path, .atom (match e.2 with | .val _ => "val" | .fake _ => "fake")])
 
-def outStr (s : St) : Out → Sexp
+/-- the subscripted proxies of a stored hint -/
+partial def subbedOf : H → List Proxy
+  | .fwd p => if p.subbed then [p] else []
+  | .sub h args => subbedOf h ++ (args.map subbedOf).flatten
+  | .bor a b => subbedOf a ++ subbedOf b
+  | _ => []
+
+def freshStr (s : St) (ps : List Proxy) : Sexp :=
+  .list (ps.filterMap fun p => match resolveFresh s p with
+    | .ok (.val _) => some (.list [pathStr p.path, .atom "val"])
+    | .ok (.fake _) => some (.list [pathStr p.path, .atom "fake"])
+    | .error _ => none)
+
+def outStr (s : St) (fresh : Sexp) : Out → Sexp
   | .silent => .atom "silent"
   | .crash e => .list (.atom "crash" :: errStr e)
-  | .called i sp => .list [.atom "called", rhStr i, rhStr sp, cacheStr s.cache]
+  | .called i sp => .list [.atom "called", rhStr i, rhStr sp, cacheStr s.cache, fresh]
 
 def runOut (s : St) : List Ev → List Sexp
   | [] => []
   | ev :: evs =>
     let (s', o) := step s ev
-    outStr s' o :: runOut s' evs
+    let fresh := match ev with
+      | .call f => match (s'.func? f).bind (·.hint) with
+        | some h => freshStr s' (subbedOf h)
+        | none => .list []
+      | _ => .list []
+    outStr s' fresh o :: runOut s' evs
 
 partial def tokStr : Tok → Sexp
   | .id n => .list [.atom "id", .atom n]
